@@ -7,6 +7,7 @@ import HcModel.PanicSitesExpected
 import HcProofs.Lemmas.PairSetup
 import HcProofs.Lemmas.PairVerify
 import HcProofs.Lemmas.CloseRace
+import HcModel.PlainFraming
 import HcProofs.Lemmas.Tlv8
 /-
   C13 — no remote input panics or wedges the accessory.
@@ -309,5 +310,49 @@ theorem parsed_items_bounded_by_body (bs : Bytes) (is : Container) (h : parse bs
 theorem pairing_request_bodies_limited :
     Hc.Generated.bodyReaders = ["pair-setup.go: limited 65536", "pair-verify.go: limited 65536", "pairings.go: limited 65536"] := by
   decide
+
+/-! ## plaintext requests the connection cannot frame (F62) -/
+
+open Hc.PlainFraming in
+/-- "…answered with a well-formed response (an error when it cannot be processed) rather than a dropped connection": a
+    connection without a cryptographer frames the requests it receives itself (F19) and refuses what it cannot frame. Every
+    such refusal is ANSWERED — the request's header does not parse, gives no length (chunked coding: a well-formed request),
+    or does not end — with one exception, for every parser `cl`, header limit, state and byte: bytes that arrive behind a
+    complete request before its response was written, which are refused without a word (they are the adversary's: C05). -/
+theorem plaintext_refusal_answered_unless_excess (cl : Bytes → Option Nat) (maxHeader : Nat) (s : St) (x : UInt8)
+    (h : byte cl maxHeader s x = none) : answered s = !s.complete := by
+  unfold byte at h
+  unfold answered
+  cases hc : s.complete
+  · cases hb : s.inBody
+    · rfl
+    · simp [hc, hb] at h
+  · simp
+
+open Hc.PlainFraming in
+/-- the same for whole reads, from any state: a read that is refused silently was refused at a byte that found a complete,
+    unanswered request in front of it -/
+theorem plaintext_silent_refusal_is_excess (cl : Bytes → Option Nat) (maxHeader : Nat) :
+    ∀ (b : Bytes) (s : St), refusal cl maxHeader s b = some false →
+      ∃ (pre : Bytes) (x : UInt8) (post : Bytes) (s' : St), b = pre ++ x :: post ∧ feed cl maxHeader s pre = some s' ∧
+        s'.complete = true ∧ byte cl maxHeader s' x = none := by
+  intro b
+  induction b with
+  | nil => intro s h; simp [refusal] at h
+  | cons x xs ih =>
+    intro s h
+    simp only [refusal] at h
+    cases hb : byte cl maxHeader s x with
+    | none =>
+      simp only [hb, Option.some.injEq] at h
+      have ha := plaintext_refusal_answered_unless_excess cl maxHeader s x hb
+      rw [h] at ha
+      refine ⟨[], x, xs, s, rfl, rfl, ?_, hb⟩
+      cases hc : s.complete <;> simp [hc] at ha ⊢
+    | some s1 =>
+      simp only [hb] at h
+      obtain ⟨pre, y, post, s', hsplit, hfeed, hcomp, hbyte⟩ := ih s1 h
+      refine ⟨x :: pre, y, post, s', by simp [hsplit], ?_, hcomp, hbyte⟩
+      simp [feed, hb, hfeed]
 
 end Hc.Props.C13
